@@ -131,6 +131,47 @@ def check_iscsi_len(case):
     return True, ("iscsi_len",)
 
 
+# ---- near twins ------------------------------------------------------------------------------------
+# free bit-fields of EXTENDED COPY descriptors: key -> number of values (changing one of them changes
+# exactly that field of the list; everything else - designators, lengths - stays as it was)
+TWIN_FIELDS = {"association": 3, "relative_initiator_port_identifier": 1 << 16, "pad": 2, "fixed": 2,
+               "stream_block_length": 1 << 24, "disk_block_length": 1 << 24, "cat": 2, "dc": 2, "fco": 2,
+               "block_device_number_of_blocks": 1 << 16, "stream_device_transfer_length": 1 << 24,
+               "source_block_device_logical_block_address": 1 << 64,
+               "destination_block_device_logical_block_address": 1 << 64}
+
+
+def twins(a, limit=3):
+    """copies of the argument structure `a` that differ from it in one free field of one descriptor."""
+    import copy
+
+    sites = []
+
+    def walk(x, path):
+        if isinstance(x, dict):
+            for k, v in x.items():
+                if k in TWIN_FIELDS and isinstance(v, int) and not isinstance(v, bool):
+                    sites.append(path + (k,))
+                else:
+                    walk(v, path + (k,))
+        elif isinstance(x, list):
+            for i, v in enumerate(x):
+                walk(v, path + (i,))
+
+    walk(a, ())
+    if not sites:
+        return
+    picks = {0, len(sites) // 2, len(sites) - 1}
+    for i in sorted(picks)[:limit]:
+        b = copy.deepcopy(a)
+        x = b
+        for k in sites[i][:-1]:
+            x = x[k]
+        k = sites[i][-1]
+        x[k] = (x[k] + 1) % TWIN_FIELDS[k]
+        yield sites[i], b
+
+
 # ---- EXTENDED COPY ----------------------------------------------------------------------------------
 def check_xcopy(spc5, table):
     cmd = cmds.BY_NAME["extendedcopy5" if spc5 else "extendedcopy4"]
@@ -145,6 +186,15 @@ def check_xcopy(spc5, table):
         with lib("constructor, same dictionary objects again"):
             c2 = cmd.cls(cmd.opcode(table), **args)
         expect(bytes(c2.dataout) == bytes(c.dataout), "mismatch:second_use_of_the_same_dictionaries_differs")
+        # a command that differs from the one just built in a single descriptor field (same designators,
+        # same everything else) gets its own parameter list, not a remembered one
+        for site, b in twins(a):
+            with lib("constructor (near twin)"):
+                cb = cmd.cls(cmd.opcode(table), **paramgen.strip_notes(b))
+            try:
+                judge_bytes(cb.dataout, [P.xcopy(b, spc5)], "xcopy_parameter_list")
+            except Violation as v:
+                raise Violation("mismatch:xcopy_parameter_list_of_near_twin", dict(v.detail, changed=str(site[-1])))
         lst = a.get("cscd_descriptor_list" if spc5 else "target_descriptor_list", [])
         segs = a.get("segment_descriptor_list", [])
         cl = sorted({"seg_%02X" % s["_code"] for s in segs}) + sorted({"pdt_%02X" % d["_pdt"] for d in lst})
